@@ -4,6 +4,10 @@ Post-hooks on the ``_vector`` / ``_mass`` methods of every item class judge each
 internal forces sum to zero (and have no moment for objective materials), body forces sum to rho*a*V, point loads are
 their values, follower pressure gives -p * (integrated current area vector), the mass matrix is symmetric positive
 semi-definite and carries rho*V per direction, constraint forces are self-equilibrated.
+
+Sums alone are blind to everything that keeps the partition of unity, so first moments say where a load / the mass sits: body forces and
+the mass matrix against int X dV from the cell vertices (which also gives a volume that is not read from the region or the field's
+radius), follower pressure against the moment / the axisymmetric radial entry of the area vector spanned by the deformed face rims.
 """
 import warnings
 
@@ -68,6 +72,119 @@ def rim_area_vector(reg, f):
     return (sgn[:, None] * loop(x[cf])).sum(0), "vector"
 
 
+def edge_gauss(x3, fun, n=5):
+    """Integral over three-node edges (first end, second end, mid-edge node; parameter t in [-1, 1]) of fun(x(t), dx/dt)."""
+    g, w = np.polynomial.legendre.leggauss(n)
+    tot = 0.0
+    for t, wt in zip(g, w):
+        N = np.array([t * (t - 1) / 2, t * (t + 1) / 2, 1 - t * t])
+        dN = np.array([t - 0.5, t + 0.5, -2 * t])
+        tot = tot + wt * fun(np.einsum("a,fai->fi", N, x3), np.einsum("a,fai->fi", dN, x3))
+    return tot
+
+
+def rim_moment(reg, f):
+    """First moment of the current area vector of the loaded faces, again from the deformed rims of the faces alone:
+    int x cross n da = -1/2 loop-integral |x|^2 dx (Stokes with (n cross grad)(|x|^2 / 2) = n cross x; in 2D the moment about the
+    out-of-plane axis, -(|x_b|^2 - |x_a|^2) / 2 per edge), and for axisymmetric fields the radial entry of the area vector
+    2 pi int r n_r ds = -2 pi int r dz along the deformed edge (straight edge: -pi (z_b - z_a)(r_a + r_b); three-node edge: Gauss).
+    The nodal forces -p int h_a n da, each at its own node x_a, have exactly this moment (sum_a h_a x_a is the face). Independent of the
+    region's shape functions, normals, quadrature and of the field's radius. Returns (moment or None, radial entry or None)."""
+    cf = np.asarray(reg.mesh.cells_faces)
+    X = np.asarray(reg.mesh.points, float)
+    dimX = X.shape[1]
+    x = X + np.asarray(f[0].values, float)[:, :dimX]
+    cells = reg.mesh.cells
+    cen = X[cells[:, : (4 if dimX == 2 else 8)]].mean(1)
+    if dimX == 2:
+        if cf.shape[1] not in (2, 3):
+            return None, None
+        a, b = cf[:, 0], cf[:, 1]
+        rot = lambda v: np.stack([v[:, 1], -v[:, 0]], 1)
+        sgn = np.sign((rot(X[b] - X[a]) * (0.5 * (X[a] + X[b]) - cen)).sum(1))
+        if type(f[0]).__name__ == "FieldAxisymmetric":
+            if cf.shape[1] == 2:
+                return None, float((-sgn * np.pi * (x[b, 0] - x[a, 0]) * (x[a, 1] + x[b, 1])).sum())
+            return None, float((sgn * edge_gauss(x[cf[:, :3]], lambda q, dq: -2 * np.pi * q[:, 1] * dq[:, 0])).sum())
+        return np.array([float((-0.5 * sgn * ((x[b] ** 2).sum(1) - (x[a] ** 2).sum(1))).sum())]), None
+    npf = cf.shape[1]
+    if npf not in (4, 8, 9):
+        return None, None
+
+    def loop(P):  # closed loop integral of |x|^2 dx around every face
+        tot = 0.0
+        for e in range(4):
+            if npf == 4:
+                A, D = P[:, e], P[:, (e + 1) % 4] - P[:, e]
+                tot = tot + D * ((A * A).sum(1) + (A * D).sum(1) + (D * D).sum(1) / 3)[:, None]
+            else:
+                tot = tot + edge_gauss(np.stack([P[:, e], P[:, (e + 1) % 4], P[:, 4 + e]], 1), lambda q, dq: (q * q).sum(1)[:, None] * dq)
+        return tot
+    Aref = 0.5 * np.cross(X[cf[:, 2]] - X[cf[:, 0]], X[cf[:, 3]] - X[cf[:, 1]])
+    sgn = np.sign((Aref * (X[cf[:, :4]].mean(1) - cen)).sum(1))
+    return (-0.5 * sgn[:, None] * loop(x[cf])).sum(0), None
+
+
+def vertex_geometry(reg, axisymmetric=False):
+    """Volume and first moment int X dV of a mesh of straight-sided cells from the coordinates of the cell vertices alone (simplices in
+    closed form, quads / hexahedra by a 3-point Gauss rule of our own on the multilinear vertex map, which is exact for it; weighted with
+    2 pi R for bodies of revolution - Pappus). Independent of the region's shape functions, quadrature, dV and of the field's radius.
+    The element's reference coordinates are used for the precondition only: every node of a cell must sit where the vertex map puts it
+    (mid-edge / mid-face nodes of straight-sided cells); otherwise, or for unknown cell types, None."""
+    import itertools
+    mesh = reg.mesh
+    X = np.asarray(mesh.points, float)
+    dim = X.shape[1]
+    name = type(reg.element).__name__
+    mini = name.endswith("MINI")
+    shape = [k for k in ("Hexahedron", "Quad", "Triangle", "Tetra") if name.replace("MINI", "").endswith(k)]
+    rp = np.asarray(reg.element.points, float)
+    ncol = mesh.cells.shape[1]
+    if not shape or name.startswith("Constant") or rp.ndim != 2 or rp.shape != (ncol, dim):
+        return None
+    shape = shape[0]
+    nv = {"Hexahedron": 8, "Quad": 4, "Triangle": 3, "Tetra": 4}[shape]
+    if {"Hexahedron": 3, "Quad": 2, "Triangle": 2, "Tetra": 3}[shape] != dim:
+        return None
+    P = X[mesh.cells[:, :nv]]  # cell, vertex, axis
+    if shape in ("Triangle", "Tetra"):
+        Nv = lambda r: np.concatenate([1 - r.sum(-1, keepdims=True), r], -1)
+    else:
+        sg = np.array([[-1, -1, -1], [1, -1, -1], [1, 1, -1], [-1, 1, -1], [-1, -1, 1], [1, -1, 1], [1, 1, 1], [-1, 1, 1]], float)[:nv, :dim]
+        Nv = lambda r: np.prod(1 + sg[None] * r[:, None, :], -1) / 2 ** dim
+    nn = ncol - (1 if mini else 0)  # the bubble of a MINI cell is a hierarchical unknown, its mesh point carries no geometry
+    size = max(maxabs(P.max(1) - P.min(1)), 1e-300)
+    if maxabs(np.einsum("av,cvi->cai", Nv(rp[:nn]), P) - X[mesh.cells[:, :nn]]) > 1e-9 * size:
+        return None
+    if shape in ("Triangle", "Tetra"):
+        vol = np.linalg.det(P[:, 1:] - P[:, :1]) / (2 if dim == 2 else 6)
+        S = P.sum(1)
+        if not axisymmetric:
+            return float(vol.sum()), (vol[:, None] * S / (dim + 1)).sum(0)
+        # int R dA = A mean(R_v); int X_i R dA = A / 12 (sum_v X_iv R_v + sum_v X_iv sum_v R_v)
+        R = P[..., 1]
+        return (float(2 * np.pi * (vol * R.mean(1)).sum()),
+                2 * np.pi * (vol[:, None] / 12 * (np.einsum("cvi,cv->ci", P, R) + S * S[:, 1:2])).sum(0))
+    g, w = np.polynomial.legendre.leggauss(3)
+    V, M1 = 0.0, np.zeros(dim)
+    for idx in itertools.product(range(3), repeat=dim):
+        r = g[list(idx)]
+        N = np.prod(1 + sg * r, -1) / 2 ** dim
+        dN = np.stack([sg[:, k] * np.prod(np.delete(1 + sg * r, k, 1), -1) for k in range(dim)], 1) / 2 ** dim
+        xq = np.einsum("v,cvi->ci", N, P)
+        dv = np.prod(w[list(idx)]) * np.linalg.det(np.einsum("vk,cvi->cik", dN, P))
+        if axisymmetric:
+            dv = dv * 2 * np.pi * xq[:, 1]
+        V += float(dv.sum())
+        M1 += (dv[:, None] * xq).sum(0)
+    return V, M1
+
+
+def point_ids(points, n):
+    """Point ids (non-negative, as an array) of a selection given as list, array, boolean mask, negative ids or a single id."""
+    return np.atleast_1d(np.arange(n)[np.asarray(points)])
+
+
 def attach_hooks(run):
     import felupe as fem
     M = fem.mechanics
@@ -81,7 +198,16 @@ def attach_hooks(run):
         X = f.region.mesh.points
         u = f[0].values
         n = X.shape[0] * f[0].dim
-        r = result.toarray().ravel()[:n]
+        if isinstance(result, list):
+            # a body built with block=False hands out one vector per field: the first one carries the nodal forces
+            if not result or not hasattr(result[0], "toarray"):
+                return
+            r = result[0].toarray().ravel()[:n]
+            run.units["solid:block=False"] += 1
+        elif hasattr(result, "toarray"):
+            r = result.toarray().ravel()[:n]
+        else:
+            return  # whatever the user's apply= callable made of it
         try:
             if MI.min_detF(f) <= 0.05:
                 run.skip("items.balance", "det F <= 0.05")
@@ -124,7 +250,9 @@ def attach_hooks(run):
     def init_post(obj, arguments):
         if getattr(obj, "_vmon_in_update", False):
             return
-        shadow[id(obj)] = (obj, {k: (None if v is None else (np.array(v, float) if k != "field" and np.ndim(v) > 0 else v))
+        # (the point selection keeps its type: a boolean mask, negative ids or a tuple are not numbers)
+        shadow[id(obj)] = (obj, {k: (None if v is None else (copy.deepcopy(v) if k == "points" else
+                                                            (np.array(v, float) if k != "field" and np.ndim(v) > 0 else v)))
                                  for k, v in arguments.items() if k != "field"})
 
     def update_pre(self, args, kwargs):
@@ -157,15 +285,23 @@ def attach_hooks(run):
             expected = self.results.scale * np.asarray(self.results.values, float)
         else:
             expected = self.results.density * np.asarray(self.results.gravity, float)
-        got = r[:n].reshape(-1, d).sum(0)
+        rr = r[:n].reshape(-1, d)
+        vertex = np.ones(len(rr), bool)
+        if type(f.region.element).__name__.endswith("MINI"):
+            # bubble unknowns are hierarchical (amplitudes): the rigid translation has zero bubble amplitudes, so the resultant is the sum
+            # over the vertex rows (as in the mass clause; the sum over all rows is not rho a V there)
+            vertex[f.region.mesh.cells[:, -1]] = False
+        got = rr[vertex].sum(0)
         exp = expected[:d] * V
         lab = type(self).__name__
         a = asked(self)
+        per_volume = expected[:d]
         if a is not None:
             fac = a["scale"] if lab == "SolidBodyForce" else a["density"]
             val = a[LOADARG[lab]]
             val = np.zeros(d) if val is None else np.asarray(val, float).ravel()
             exp_user = float(fac) * val[:d] * V
+            per_volume = float(fac) * val[:d]
             run.compare("items.resultant", "item=%s clause=resultant-of-requested-load" % lab,
                         maxabs(got - exp_user) / max(maxabs(exp_user), 1e-300), 1e-11,
                         "%s: nodal forces do not sum to the density given at construction times the latest load value times the volume" % lab,
@@ -177,6 +313,35 @@ def attach_hooks(run):
                     sample={"item": lab, "sum": got.tolist(), "rho*a*V": exp.tolist()})
         if maxabs(r[n:]) > 0:
             run.fail("items.resultant", "item=%s clause=other-fields-untouched" % lab, "%s puts forces on the dual fields" % lab)
+        # the same resultant with a volume of our own, and where the load sits: sum_a X_a (x) f_a = rho a (x) int X dV (sum_a h_a X_a = X on
+        # isoparametric cells). A sum alone is blind to everything that keeps the partition of unity (two shape functions exchanged), and the
+        # volume above takes dV and the radius from the objects under test. Volume and first moment come from the cell vertices (straight-sided
+        # cells only); levers are measured from the middle of the body, in units of its size.
+        axi = type(f[0]).__name__ == "FieldAxisymmetric"
+        try:
+            own = vertex_geometry(f.region, axi)
+        except Exception:
+            own = None
+        if own is None:
+            run.skip("items.resultant", "cells not straight-sided or of unknown type: no volume / first moment from the vertices")
+            return
+        Vown, M1 = own
+        exp_own = per_volume * Vown
+        run.compare("items.resultant", "item=%s clause=resultant-from-cell-vertices" % lab, maxabs(got - exp_own) / max(maxabs(exp_own), 1e-300), 1e-11,
+                    "%s: nodal forces do not sum to density * acceleration * the volume spanned by the cell vertices (2 pi R weighted if axisymmetric)" % lab,
+                    unit="vertex-volume:" + lab, config=("vertex-volume", lab, type(f[0]).__name__, type(f.region.element).__name__))
+        if axi and len(np.asarray(f.region.quadrature.weights)) == 1:
+            run.skip("items.resultant", "one-point rule: the radius-weighted first moment is not integrated exactly")
+            return
+        X = np.asarray(f.region.mesh.points, float)
+        c = X.mean(0)
+        L = max(float(np.ptp(X, axis=0).max()), 1e-300)
+        got_m = np.einsum("ai,aj->ij", (X - c)[vertex], rr[vertex])
+        exp_m = np.outer(M1 - c * Vown, per_volume)
+        run.compare("items.resultant", "item=%s clause=first-moment" % lab, maxabs(got_m - exp_m) / max(maxabs(per_volume) * abs(Vown) * L, 1e-300), 1e-11,
+                    "%s: the first moment sum_a X_a (x) f_a of the nodal forces differs from density * acceleration (x) int X dV" % lab,
+                    unit="first-moment:" + lab, config=("first-moment", lab, type(f[0]).__name__, type(f.region.element).__name__),
+                    sample={"item": lab, "element": type(f.region.element).__name__, "sum X(x)f": got_m.tolist(), "rho a (x) int X dV": exp_m.tolist()})
 
     attach.wrap_method(M.SolidBodyForce, "_vector", post=force_post)
     attach.wrap_method(M.SolidBodyGravity, "_vector", post=force_post)
@@ -191,19 +356,31 @@ def attach_hooks(run):
         k = self.apply_on
         fl = f.fields[k]
         ref = np.zeros(fl.values.shape)
-        vals = np.broadcast_to(np.asarray(self.values, float), (len(np.atleast_1d(self.points)), fl.dim)).copy()
+        # the selection as ids: boolean masks (what the docs and tests use for loads on faces), negative ids and single ids are selections too
+        pts = point_ids(self.points, len(ref)) if not isinstance(self.points, tuple) else self.points
+        vals = np.broadcast_to(np.asarray(self.values, float), (len(np.atleast_1d(pts)), fl.dim)).copy()
         if self.axisymmetric:
-            vals *= 2 * np.pi * f[0].region.mesh.points[self.points, 1].reshape(-1, 1)
-        ref[self.points] += vals
+            vals *= 2 * np.pi * f[0].region.mesh.points[pts, 1].reshape(-1, 1)
+        ref[pts] += vals
         full = np.zeros(offs[-1])
         full[offs[k]: offs[k + 1]] = ref.ravel()
         a = asked(self)
-        if a is not None and a.get("values") is not None:
+        if a is not None and isinstance(a.get("points"), tuple):
+            run.skip("items.resultant", "points given as a tuple (documented type: list; numpy reads a multi-axis index)")
+            a = None
+        if a is not None:
             k2 = a.get("apply_on", 0)
             fl2 = f.fields[k2]
-            pts2 = np.asarray(a["points"]).astype(int)
+            pts2 = point_ids(a["points"], len(fl2.values))
             ref2 = np.zeros(fl2.values.shape)
-            v2 = np.broadcast_to(np.asarray(a["values"], float), (len(np.atleast_1d(pts2)), fl2.dim)).copy()
+            # values=None is documented as a zero load
+            v2 = np.broadcast_to(np.asarray(0.0 if a.get("values") is None else a["values"], float), (len(pts2), fl2.dim)).copy()
+            run.units["pointload:points-as-" + ("mask" if np.asarray(a["points"]).dtype == bool else
+                                                 "list" if isinstance(a["points"], list) else
+                                                 "negative-ids" if np.min(np.asarray(a["points"])) < 0 else "array")] += 1
+            run.units["pointload:apply_on=%d" % k2] += 1
+            if a.get("values") is None:
+                run.units["pointload:values=None"] += 1
             if a.get("axisymmetric"):
                 v2 *= 2 * np.pi * f[0].region.mesh.points[pts2, 1].reshape(-1, 1)
             np.add.at(ref2, pts2, v2)
@@ -242,10 +419,19 @@ def attach_hooks(run):
         p = self.results.pressure
         r = result.toarray().ravel().reshape(-1, d)
         got = r.sum(0)
-        exp = (-p * da)[:d]
-        scale = max(abs(p) * float(np.abs(w).sum()), 1e-300)
+        got_all = got
+
+        def p_da(pp):
+            # int p da; an array-valued pressure (documented: float or ndarray) lives on the quadrature points / faces and stays inside the integral
+            if np.ndim(pp) == 0:
+                return pp * da
+            return np.einsum("qc,qc,qcij,jqc,qc->i", np.broadcast_to(np.asarray(pp, float), J.shape), J, FinvT, N, w)
+        exp = (-p_da(p))[:d]
+        scale = max(maxabs(p) * float(np.abs(w).sum()), 1e-300)
         lab = "SolidBodyPressure[%s]" % kind
         closed = reg.mask is None and reg.only_surface
+        if np.ndim(p) > 0:
+            run.units["pressure:array-valued"] += 1
         if kind == "FieldAxisymmetric":
             got, exp = got[:1], exp[:1]  # only the axial resultant is a force
         run.compare("items.resultant", "item=%s clause=resultant" % lab, maxabs(got - exp) / scale, 1e-11,
@@ -256,15 +442,17 @@ def attach_hooks(run):
         pk = kwargs.get("pressure", args[1] if len(args) > 1 else None)
         if a is not None and pk is not None:
             a["pressure"] = pk  # a pressure handed to the assembler replaces the stored one (documented)
-        if a is not None and np.ndim(a.get("pressure")) == 0:
-            p_user = 0.0 if a.get("pressure") is None else float(a["pressure"])
-            exp_user = (-p_user * da)[:d]
+        if a is not None:
+            p_user = 0.0 if a.get("pressure") is None else (float(a["pressure"]) if np.ndim(a["pressure"]) == 0 else np.asarray(a["pressure"], float))
+            exp_user = (-p_da(p_user))[:d]
             if kind == "FieldAxisymmetric":
                 exp_user = exp_user[:1]
             run.compare("items.resultant", "item=%s clause=resultant-of-requested-pressure" % lab,
-                        maxabs(got - exp_user) / max(abs(p_user) * float(np.abs(w).sum()), 1e-300), 1e-11,
+                        maxabs(got - exp_user) / max(maxabs(p_user) * float(np.abs(w).sum()), 1e-300), 1e-11,
                         "%s: nodal forces do not sum to minus the latest requested pressure times the integrated current area vector" % lab,
                         unit="requested:SolidBodyPressure", config=("requested", lab, closed))
+            if np.ndim(p_user) == 0 and p_user == 0.0:
+                run.units["pressure:requested-zero"] += 1  # None at construction, an explicit 0.0 in the call, update(0): no load at all
         if np.ndim(p) == 0:
             # the same resultant from the deformed rim nodes of the loaded faces alone (no shape functions, normals, radius of the region)
             try:
@@ -279,9 +467,38 @@ def attach_hooks(run):
                     run.compare("items.resultant", "item=%s clause=resultant-from-face-rims" % lab, maxabs(got_own - exp_own) / scale, 1e-11,
                                 "%s: nodal forces do not sum to -p times the current area vector spanned by the rims of the loaded faces" % lab,
                                 unit="rim:" + lab + (":closed" if closed else ":open"), config=("rim", lab, closed, reg.mesh.cells_faces.shape[1]))
-        if closed and kind != "FieldAxisymmetric":
+        if closed and kind != "FieldAxisymmetric" and np.ndim(p) == 0:  # (a uniform pressure; a pressure field has a resultant)
             run.compare("items.resultant", "item=%s clause=closed-surface-zero" % lab, maxabs(got) / scale, 1e-11,
                         "%s: pressure on a closed surface has a resultant" % lab, unit="resultant:" + lab + ":closed-zero")
+        allfaces = reg.mask is None and not reg.only_surface
+        if allfaces and np.ndim(p) == 0:
+            # every face of every cell: the faces between two cells are loaded from both sides and cancel, what is left is the closed outline
+            g0 = got if kind != "FieldAxisymmetric" else got[:1]
+            run.compare("items.resultant", "item=%s clause=all-cell-faces-zero" % lab, maxabs(g0) / scale, 1e-11,
+                        "%s: a uniform pressure on all faces of all cells (inner faces twice, with opposite normals) has a resultant" % lab,
+                        unit="resultant:" + lab + ":all-faces-zero", config=(lab, "all-faces"))
+        if np.ndim(p) == 0:
+            # where the load sits, not only its sum (a sum is blind to exchanged shape functions): the moment of the nodal forces about the
+            # origin, sum_a x_a cross f_a = -p int x cross n da, again from the deformed rims alone (zero on a closed surface); for
+            # axisymmetric fields the radial row, which the clauses above crop: sum_a f_a,r = -p 2 pi int r n_r ds on the deformed edges
+            try:
+                mom, rad = rim_moment(reg, f)
+            except Exception:
+                mom, rad = None, None
+            where = ":closed" if closed else (":all-faces" if allfaces else ":open")
+            x = np.asarray(reg.mesh.points, float) + np.asarray(f[0].values, float)[:, : reg.mesh.points.shape[1]]
+            if rad is not None and kind == "FieldAxisymmetric" and r.shape[1] == 2:
+                run.compare("items.resultant", "item=%s clause=radial-resultant-from-face-rims" % lab, abs(got_all[1] + float(p) * rad) / scale, 1e-11,
+                            "%s: the radial nodal forces do not sum to -p 2 pi int r n_r ds over the deformed edges" % lab,
+                            unit="rim-radial:" + lab + where, config=("rim-radial", lab, where, reg.mesh.cells_faces.shape[1]),
+                            sample={"item": lab, "faces": where, "radial sum": float(got_all[1]), "-p 2 pi int r n_r ds": -float(p) * rad})
+            if mom is not None and kind != "FieldAxisymmetric" and len(x) == len(r):
+                xr = x[:, :d]
+                got_m = np.cross(xr, r).sum(0) if d == 3 else np.array([(xr[:, 0] * r[:, 1] - xr[:, 1] * r[:, 0]).sum()])
+                run.compare("items.resultant", "item=%s clause=moment-from-face-rims" % lab,
+                            maxabs(got_m + float(p) * mom) / (scale * max(maxabs(xr), 1e-300)), 1e-11,
+                            "%s: the moment of the nodal forces differs from -p int x cross n da spanned by the rims of the loaded faces" % lab,
+                            unit="rim-moment:" + lab + where, config=("rim-moment", lab, where, reg.mesh.cells_faces.shape[1]))
 
     attach.wrap_method(M.SolidBodyPressure, "_vector", post=pressure_post)
 
@@ -297,7 +514,10 @@ def attach_hooks(run):
             return
         run.compare("items.balance", "item=%s clause=self-equilibrated" % lab, maxabs(r.sum(0)) / (s * len(r)), 1e-12,
                     "%s: constraint forces do not sum to zero" % lab, unit="balance:" + lab, config=(lab,))
-        others = np.setdiff1d(np.arange(len(r)), np.append(self.points, self.centerpoint))
+        # the selection as ids (the class docstring's own example names the centre point -1; lists, masks, negative ids are selections too)
+        own = np.append(point_ids(self.points, len(r)), point_ids(self.centerpoint, len(r)))
+        others = np.setdiff1d(np.arange(len(r)), own)
+        run.units["mpc:%s:%dd%s" % (lab, d, ":centerpoint<0" if np.ndim(self.centerpoint) == 0 and self.centerpoint < 0 else "")] += 1
         if maxabs(r[others]) > 0:
             run.fail("items.balance", "item=%s clause=only-its-points" % lab, "%s puts forces on points outside the constraint" % lab)
 
@@ -337,6 +557,39 @@ def attach_hooks(run):
             run.compare("items.mass", "item=%s clause=total-mass" % lab, abs(tot - density * V) / (density * V), 1e-11,
                         "e_i^T M e_i differs from density * volume", unit="mass:total", config=(lab, "total"),
                         sample={"item": lab, "direction": i, "e^T M e": tot, "rho*V": density * V})
+        # "in each direction": the directions do not talk to each other, e_i^T M e_j = 0 (density * ones((dim, dim)) instead of the identity is
+        # symmetric, positive semi-definite and has the right e_i^T M e_i). And where the mass sits: e_i^T M x_j = rho int X_j dV with the nodal
+        # coordinates x_j in direction i, volume and first moment from the cell vertices (a sum is blind to exchanged shape functions, and V
+        # above comes from the region under test); levers from the middle of the body.
+        E = np.zeros((d, Mx.shape[0]))
+        for i in range(d):
+            E[i, i: f.region.mesh.npoints * d: d] = vertex.astype(float)
+        G = E @ Mx @ E.T
+        run.compare("items.mass", "item=%s clause=directions-uncoupled" % lab, maxabs(G - np.diag(np.diag(G))) / (density * V), 1e-12,
+                    "e_i^T M e_j is not zero for two different directions", unit="mass:uncoupled", config=(lab, "uncoupled"))
+        try:
+            own = vertex_geometry(f.region, False) if type(f[0]).__name__ != "FieldAxisymmetric" else None
+        except Exception:
+            own = None
+        if own is None:
+            run.skip("items.mass", "cells not straight-sided or of unknown type: no volume / first moment from the vertices")
+            return
+        Vown, M1 = own
+        run.compare("items.mass", "item=%s clause=total-mass-from-cell-vertices" % lab, maxabs(np.diag(G) - density * Vown) / (density * Vown), 1e-11,
+                    "e_i^T M e_i differs from density * the volume spanned by the cell vertices", unit="mass:vertex-volume", config=(lab, "vertex-volume"))
+        X = np.asarray(f.region.mesh.points, float)
+        c = X.mean(0)
+        L = max(float(np.ptp(X, axis=0).max()), 1e-300)
+        lever = np.where(vertex[:, None], X - c, 0.0)  # bubble amplitudes of the linear coordinate field are zero
+        worst = 0.0
+        for i in range(d):
+            for j in range(X.shape[1]):
+                xj = np.zeros(Mx.shape[0])
+                xj[i: f.region.mesh.npoints * d: d] = lever[:, j]
+                worst = max(worst, abs(float(E[i] @ Mx @ xj) - density * (M1[j] - c[j] * Vown)) / (density * abs(Vown) * L))
+        run.compare("items.mass", "item=%s clause=first-moment" % lab, worst, 1e-11,
+                    "e_i^T M x_j differs from density * int X_j dV (first moment of the mass)", unit="mass:first-moment",
+                    config=(lab, "first-moment", type(f.region.element).__name__))
 
     def body_init(obj, arguments):
         BODY_GIVEN[id(obj)] = (obj, {"density": arguments.get("density")})
@@ -490,6 +743,211 @@ def case_loads(rep):
     return fn
 
 
+GEO = ["distorted", "affine", "curved"]
+
+
+def case_load_forms(kind, fam, geometry, rep, k):
+    """Body force, gravity and point loads on every element family in the three geometry classes (the affine class brings the length units:
+    millimetre, micrometre and large bodies), with the argument and call forms of the documentation: the None default followed by update
+    (the ramp pattern), assembly without a field, threaded assembly, a container that is not the item's own, three components on a
+    plane-strain field, point selections as list / array / boolean mask / negative ids, values as scalar / row / table / None, the
+    n-th field of a mixed container. ``k`` schedules the forms (by index, not by draws)."""
+    def fn(run):
+        import felupe as fem
+        rng = rng_for(run.seed, "C14", "load-forms", kind, fam, geometry, rep)
+        attach_hooks(run)
+        try:
+            field, mesh, reg = C01.make_field(kind, fam, geometry, rng)
+            C01.random_state(rng, field)
+            d = field[0].dim
+            axi = kind.endswith("axisymmetric")
+            # axisymmetric fields need three components (the hoop entry has no documented meaning: zero); a plane-strain field takes two,
+            # or three as the docs' axes=3 tables give them (the third is trimmed)
+            nc = 3 if (axi or (kind.endswith("planestrain") and k % 2 == 0)) else d
+
+            def bvec():
+                v = rng.standard_normal(nc)
+                if axi:
+                    v[2] = 0.0
+                return v
+            par = bool(k % 2)
+            with warnings.catch_warnings():
+                warnings.simplefilter("ignore")
+                items = [fem.SolidBodyForce(field, scale=float(rng.uniform(0.5, 2))), fem.SolidBodyGravity(field, density=float(rng.uniform(0.5, 2)))]
+                if k % 3 == 0 or axi:  # the values given at construction, and handed over as a list (the None default has as many components as
+                    # the field: two, which raise on axisymmetric fields - loud, DESIGN 6)
+                    items = [fem.SolidBodyForce(field, values=bvec().tolist(), scale=float(rng.uniform(0.5, 2))),
+                             fem.SolidBodyGravity(field, gravity=bvec().tolist(), density=float(rng.uniform(0.5, 2)))]
+                f2 = copy.deepcopy(field)
+                C01.random_state(rng, f2)
+                for it in items:
+                    it.assemble.vector()  # the docstrings' own call: no field; a zero load if nothing was given yet
+                    it.update(bvec())
+                    it.assemble.vector(field, parallel=par)
+                    it.assemble.vector()
+                    it.assemble.vector(f2, parallel=not par)
+                    it.update(bvec().tolist())
+                    it.assemble.vector()
+            run.units["loads:none-default+update+no-field+parallel+foreign-container"] += 1
+            run.units["loads:family:" + fam] += 1
+            run.units["loads:geometry:" + geometry] += 1
+            # point loads: the selection and the values in the forms a user writes them
+            n = mesh.npoints
+            ids = rng.choice(n, 4, replace=False)
+            mask = np.zeros(n, bool)
+            mask[ids] = True
+            sel = [ids.tolist(), mask, ids - n, ids][k % 4]
+            nsel = 4
+            val = [float(rng.standard_normal()), rng.standard_normal((1, d)), rng.standard_normal((nsel, d)).tolist(), None][(k // 2) % 4]
+            pl = fem.PointLoad(field, sel, values=val, axisymmetric=axi and bool(k % 2))
+            pl.assemble.vector()
+            pl.assemble.vector(field, parallel=par)
+            pl.update(rng.standard_normal((nsel, d)))
+            pl.assemble.vector(f2)
+            pl.update(float(rng.standard_normal()))
+            pl.assemble.vector()
+            if len(field.fields) > 1:
+                # the n-th field of a mixed container (its own number of values and components)
+                for j in (1, 2):
+                    nj = len(field[j].values)
+                    idj = rng.choice(nj, min(3, nj), replace=False)
+                    plj = fem.PointLoad(field, idj.tolist() if k % 2 else idj, values=[float(rng.standard_normal()), rng.standard_normal((len(idj), 1))][j - 1],
+                                        apply_on=j)
+                    plj.assemble.vector(field, parallel=par)
+                    plj.assemble.vector()
+        finally:
+            attach.detach_all()
+    return fn
+
+
+def case_pressure_forms(fam, R, kind, geometry, rep, k):
+    """Follower pressure on every boundary-region family with 3D / plane-strain / axisymmetric / plain 2D fields in the three geometry
+    classes: closed outline, all faces of all cells (only_surface=False), end faces and barrel faces (selected in the coordinates of the
+    undistorted body), with the argument and call forms of the documentation: None default, update, a pressure handed to the assembler,
+    an explicit zero after a non-zero value, array-valued pressures (one per face, one per quadrature point and face), threaded assembly,
+    assembly without a field (cached kinematics)."""
+    def fn(run):
+        import felupe as fem
+        rng = rng_for(run.seed, "C14", "pressure-forms", fam, kind, geometry, rep)
+        attach_hooks(run)
+        try:
+            mq, info = gen.build_mesh(fam, geometry, rng)
+            dq = mq.dim
+            # coordinates of the undistorted body (the affine class rotates and scales it): faces are selected there
+            B = mq.points if info.get("A") is None else (mq.points - info["t"]) @ np.linalg.inv(info["A"]).T
+            if kind == "axisymmetric":
+                size = float(np.ptp(mq.points[:, 1]))
+                mq = mq.copy(points=mq.points + np.array([0.0, 1.5 * size - mq.points[:, 1].min()]))
+            def side_of(ax, end):
+                return "axis%d-%s" % (ax, end), np.abs(B[:, ax] - getattr(B[:, ax], end)()) < 1e-6 * np.ptp(B[:, ax]), True
+            sels = [("closed", None, True), ("all-faces", None, False)]
+            if geometry != "curved":
+                sels += [side_of(0, "max" if k % 2 else "min"), side_of(1, "min" if k % 2 else "max")]
+            Fld = {"3d": fem.Field, "planestrain": fem.FieldPlaneStrain, "axisymmetric": fem.FieldAxisymmetric, "plain2d": fem.Field}[kind]
+            kwq = {} if dq == 3 else {"ensure_3d": kind != "plain2d"}
+            bodies = [(mq, sels, False)]
+            if kind == "axisymmetric" and geometry != "curved":
+                # the same body standing on the axis: open faces that touch it (the radial displacement vanishes on the axis, as it must; the
+                # closed outline and the inner barrel face would load a face of zero area on the axis itself, where u_r / R is 0 / 0)
+                bodies.append((mq.copy(points=mq.points - np.array([0.0, mq.points[:, 1].min()])),
+                               [side_of(0, "min"), side_of(0, "max"), side_of(1, "max")], True))
+            for (mq, sels_, on_axis), (name, mask, only_surface) in [(b, s_) for b in bodies for s_ in b[1]]:
+                rbq = getattr(fem, R)(mq, mask=mask, only_surface=only_surface, **kwq)
+                fbq = fem.FieldContainer([Fld(rbq, dim=dq)])
+                fq = fem.FieldContainer([Fld(gen.make_region(fam, mq), dim=dq)])
+
+                def state(mq=mq, on_axis=on_axis):
+                    u = gen.random_displacement(rng, mq, grad=float(rng.uniform(0.1, 0.25)))
+                    if on_axis:
+                        u[:, 1] *= mq.points[:, 1] / mq.points[:, 1].max()
+                    return u
+                fq[0].values[:] = state()
+                pq = fem.SolidBodyPressure(fbq)
+                pq.assemble.vector(fq)  # nothing given: no load
+                pq.update(float(rng.uniform(-2, 2)))
+                pq.assemble.vector(fq, parallel=bool(k % 2))
+                pq.assemble.vector()  # the cached kinematics of that state
+                pq.assemble.vector(fq, pressure=0.0)  # an explicit zero is a value, and it replaces the stored one
+                pq.assemble.vector(fq)
+                fq[0].values[:] = state()
+                pq.assemble.vector(fq, pressure=float(rng.uniform(-2, 2)), parallel=not k % 2)
+                nq, nf = rbq.dV.shape
+                pq.assemble.vector(fq, pressure=rng.uniform(1, 2, nf))  # one pressure per loaded face
+                fq[0].values[:] = state()
+                pq.update(rng.uniform(-2, 2, (nq, nf)))  # a pressure field on the quadrature points
+                pq.assemble.vector(fq)
+                pq.update(0)
+                pq.assemble.vector()
+                run.units["pressure-forms:%s:%s" % (kind, "closed" if name == "closed" else "all-faces" if name == "all-faces" else "open")] += 1
+                if on_axis:
+                    run.units["pressure-forms:axisymmetric:open-face-touching-the-axis"] += 1
+            run.units["pressure-forms:boundary:" + R] += 1
+        finally:
+            attach.detach_all()
+    return fn
+
+
+def case_item_flags(rep):
+    """Solid bodies built with the documented constructor flags block=False and apply=, and the multi-point items in the forms of their
+    docstrings: centre point -1, point lists / masks / negative ids, 2D fields, mixed containers, assembly without a field."""
+    def fn(run):
+        import felupe as fem
+        rng = rng_for(run.seed, "C14", "flags", rep)
+        attach_hooks(run)
+        try:
+            for kind, fam in (("mixed", "hexahedron"), ("mixed-planestrain", "quad"), ("3d", "tetra10")):
+                field, mesh, reg = C01.make_field(kind, fam, GEO[rep % 3], rng)
+                C01.random_state(rng, field, grad=0.2)
+                umat = fem.ThreeFieldVariation(fem.NeoHooke(mu=1.0, bulk=float(rng.uniform(5, 30)))) if kind.startswith("mixed") \
+                    else fem.NeoHooke(mu=1.0, bulk=float(rng.uniform(2, 5)))
+                fac = float(rng.uniform(0.5, 3))
+                for kw in ({"block": False}, {"apply": lambda A: fac * A}, {"block": False, "apply": lambda A: A[::-1][-1:]}):
+                    body = fem.SolidBody(umat, field, **kw)
+                    body.assemble.vector(field)
+                    C01.random_state(rng, field, grad=0.2)
+                    body.assemble.vector(field, parallel=True)
+                    body.assemble.vector()
+                # the flags given in the call instead
+                body = fem.SolidBody(umat, field)
+                body.assemble.vector(field, apply=lambda A: fac * A)
+                run.units["solid:flags-block-apply"] += 1
+            # multi-point items
+            for dim in (3, 2):
+                mesh = fem.Cube(n=(3, 3, 2)) if dim == 3 else fem.Rectangle(n=(4, 3))
+                top = np.isclose(mesh.points[:, -1], 1.0)
+                A, t = gen.random_affine(rng, dim)  # rotated, scaled (length units) and shifted body with the centre point above its top
+                extra = np.full(dim, 0.5)
+                extra[-1] = 1.4
+                mesh.update(points=np.vstack([mesh.points, extra]) @ A.T + t)
+                top = np.append(top, False)
+                L = float(np.ptp(mesh.points, axis=0).max())
+                reg = fem.RegionHexahedron(mesh) if dim == 3 else fem.RegionQuad(mesh)
+                for mixed in (False, True):
+                    if mixed:
+                        field = fem.FieldsMixed(reg, n=3, planestrain=dim == 2)
+                    else:
+                        field = fem.FieldContainer([fem.Field(reg, dim=3) if dim == 3 else fem.FieldPlaneStrain(reg, dim=2)])
+                    ids = np.arange(mesh.npoints)[top]
+                    for j, pts in enumerate((ids.tolist(), top, ids - mesh.npoints, ids)):
+                        field[0].values[:] = 0.05 * L * rng.standard_normal(field[0].values.shape)
+                        skip = [(0, 0, 0), (0, 1, 0), (1, 1, 0), (1, 0, 0)][j][:dim] if dim == 3 else [(0, 0), (0, 1), (1, 0), (0, 0)][j]
+                        mp = fem.MultiPointConstraint(field, points=pts, centerpoint=-1 if j % 2 == 0 else mesh.npoints - 1, skip=skip,
+                                                      multiplier=float(rng.uniform(1, 1e3)))
+                        mp.assemble.vector(field, parallel=bool(j % 2))
+                        mp.assemble.vector()
+                        # contact: the points are pushed through the wall of the centre point along the active axes
+                        skipc = tuple(1 - int(i == (j % dim)) for i in range(dim))
+                        ct = fem.MultiPointContact(field, points=pts, centerpoint=-1 if j % 2 else mesh.npoints - 1, skip=skipc)
+                        u = field[0].values
+                        gap = (mesh.points[-1] + u[-1] - mesh.points[ids] - u[ids])[:, j % dim]
+                        u[ids[::2], j % dim] += 1.5 * gap[::2]
+                        ct.assemble.vector(field)
+                        ct.assemble.vector()
+        finally:
+            attach.detach_all()
+    return fn
+
+
 def cases(tier, seed):
     out = []
     fam3 = ["hexahedron", "tetra", "hexahedron20", "tetra10", "hexahedron27", "tetraMINI"]
@@ -511,6 +969,27 @@ def cases(tier, seed):
             for mat in ("ThreeFieldVariation", "NearlyIncompressible"):
                 out.append(("solid:%s:%s:%s:%d" % (kind, fam, mat, rep), case_solid(kind, fam, "distorted", mat, rep)))
         out.append(("loads:%d" % rep, case_loads(rep)))
+        # loads on the whole family x field kind matrix, the geometry class (and with it the length unit) and the call forms rotating by index
+        k = rep
+        for kind, fams in (("3d", fam3), ("planestrain", fam2), ("axisymmetric", fam2), ("mixed", ["hexahedron", "tetra10"]),
+                           ("mixed-planestrain", ["quad", "quad8"]), ("mixed-axisymmetric", ["quad", "quad9"])):
+            for fam in fams:
+                geo = GEO[k % 3]
+                if rep == 0 and geo == "curved" and fam[-1].isdigit():
+                    # curved quadratic cells have no closed-form volume / first moment: in the first round (all there is in the quick tier)
+                    # they come straight-sided; the later rounds rotate through all three classes
+                    geo = GEO[k % 2]
+                out.append(("load-forms:%s:%s:%d" % (kind, fam, rep), case_load_forms(kind, fam, geo, rep, k)))
+                k += 1
+        for fam, R, kinds in (("hexahedron", "RegionHexahedronBoundary", ["3d"]), ("hexahedron20", "RegionQuadraticHexahedronBoundary", ["3d"]),
+                              ("hexahedron27", "RegionTriQuadraticHexahedronBoundary", ["3d"]),
+                              ("quad", "RegionQuadBoundary", ["planestrain", "axisymmetric", "plain2d"]),
+                              ("quad8", "RegionQuadraticQuadBoundary", ["axisymmetric", "plain2d", "planestrain"]),
+                              ("quad9", "RegionBiQuadraticQuadBoundary", ["plain2d", "planestrain", "axisymmetric"])):
+            for kind in kinds:
+                out.append(("pressure-forms:%s:%s:%d" % (fam, kind, rep), case_pressure_forms(fam, R, kind, GEO[k % 3], rep, k)))
+                k += 1
+        out.append(("item-flags:%d" % rep, case_item_flags(rep)))
     return out
 
 
@@ -525,14 +1004,41 @@ SPEC = {
         "resultant:SolidBodyPressure[Field]:closed-zero", "resultant:SolidBodyPressure[FieldPlaneStrain]:open",
         "resultant:SolidBodyPressure[FieldAxisymmetric]:open", "mass:symmetric", "mass:psd", "mass:total",
         "balance:MultiPointConstraint", "balance:MultiPointContact", "loads:integer-typed-start", "balance:force:MINI", "balance:moment:MINI",
-        "rim:SolidBodyPressure[Field]:open", "rim:SolidBodyPressure[FieldPlaneStrain]:open", "rim:SolidBodyPressure[FieldAxisymmetric]:open", "rim:SolidBodyPressure[Field]:closed"],
+        "rim:SolidBodyPressure[Field]:open", "rim:SolidBodyPressure[FieldPlaneStrain]:open", "rim:SolidBodyPressure[FieldAxisymmetric]:open", "rim:SolidBodyPressure[Field]:closed",
+        # third audit: where the load / the mass sits (first moments), volumes of our own, radial rows, argument and call forms
+        "first-moment:SolidBodyForce", "first-moment:SolidBodyGravity", "vertex-volume:SolidBodyForce", "vertex-volume:SolidBodyGravity",
+        "mass:uncoupled", "mass:vertex-volume", "mass:first-moment",
+        "rim-moment:SolidBodyPressure[Field]:open", "rim-moment:SolidBodyPressure[Field]:closed", "rim-moment:SolidBodyPressure[Field]:all-faces",
+        "rim-moment:SolidBodyPressure[FieldPlaneStrain]:open", "rim-moment:SolidBodyPressure[FieldPlaneStrain]:closed",
+        "rim-moment:SolidBodyPressure[FieldPlaneStrain]:all-faces",
+        "rim-radial:SolidBodyPressure[FieldAxisymmetric]:open", "rim-radial:SolidBodyPressure[FieldAxisymmetric]:closed",
+        "rim-radial:SolidBodyPressure[FieldAxisymmetric]:all-faces",
+        "resultant:SolidBodyPressure[Field]:all-faces-zero", "resultant:SolidBodyPressure[FieldPlaneStrain]:all-faces-zero",
+        "resultant:SolidBodyPressure[FieldAxisymmetric]:all-faces-zero", "pressure:array-valued", "pressure:requested-zero",
+        "pressure-forms:plain2d:open", "pressure-forms:axisymmetric:open", "pressure-forms:axisymmetric:open-face-touching-the-axis",
+        "pressure-forms:boundary:RegionQuadraticQuadBoundary",
+        "pressure-forms:boundary:RegionBiQuadraticQuadBoundary", "pressure-forms:boundary:RegionQuadraticHexahedronBoundary",
+        "pressure-forms:boundary:RegionTriQuadraticHexahedronBoundary",
+        "pointload:points-as-list", "pointload:points-as-mask", "pointload:points-as-negative-ids", "pointload:points-as-array",
+        "pointload:apply_on=1", "pointload:apply_on=2", "pointload:values=None",
+        "mpc:MultiPointConstraint:3d:centerpoint<0", "mpc:MultiPointConstraint:2d:centerpoint<0", "mpc:MultiPointContact:3d:centerpoint<0",
+        "mpc:MultiPointContact:2d:centerpoint<0", "mpc:MultiPointConstraint:2d", "mpc:MultiPointContact:2d",
+        "solid:block=False", "solid:flags-block-apply", "loads:none-default+update+no-field+parallel+foreign-container",
+        "loads:geometry:distorted", "loads:geometry:affine", "loads:geometry:curved"]
+    + ["loads:family:" + fam for fam in ("hexahedron", "tetra", "hexahedron20", "tetra10", "hexahedron27", "tetraMINI",
+                                         "quad", "triangle", "quad8", "quad9", "triangle6", "triangleMINI")],
     "rule": ("C01's item/field/mesh matrix with objective materials at smooth random states (|grad u| <= 0.25, det F > 0.05): post-hooks "
              "on item._vector/_mass evaluate force and moment sums, load resultants (body force, gravity, point load incl. 2 pi R "
              "scaling, follower pressure on open and closed surfaces in 3D / plane strain / axisymmetric), mass matrix symmetry, "
-             "positive semi-definiteness and total mass, self-equilibrium of constraint forces; a configuration is distinct by "
+             "positive semi-definiteness and total mass, self-equilibrium of constraint forces; first moments say where a load / the mass "
+             "sits (body force and mass against int X dV from the cell vertices, pressure moment and axisymmetric radial row against "
+             "integrals over the deformed face rims); loads on the whole family x field-kind matrix in three geometry classes (length "
+             "units from micrometres to hundreds) and in the documented argument / call forms; a configuration is distinct by "
              "(item, field kind, clause)"),
     "assumptions": ["current area vectors: J F^-T N dA with the boundary region's normals and dA (judged by C13), and independently the vector spanned by the "
                     "deformed rims of the loaded faces (Stokes)",
+                    "volume and first moment from the cell vertices are asserted on straight-sided cells only (every node where the multilinear "
+                    "vertex map puts it); the radius-weighted first moment is not asserted for one-point rules",
                     "moment balance is asserted for objective materials only"],
     "jobs": {"quick": 8, "thorough": 16},
 }
